@@ -400,9 +400,14 @@ def run_case(case):
         viol.append({"clause": "raises", "key": dict(key0, exc=exc, where=where),
                      "detail": f"{cls.__name__}(...) raised {exc}: {str(e)[:300]} (in {where}); input rows "
                      f"{_ts(row_inst.min(), base['zone'])} .. {_ts(row_inst.max(), base['zone'])}"})
-    if _fp(df) != fp0:
+    fp1 = _fp(df)
+    if fp1 != fp0:
+        names = ("columns", "dtypes", "index dtype", "index values", "index name", "cell values")
+        what = [n for n, a, b in zip(names, fp0, fp1) if a != b]
+        if fp0[0] == fp1[0] and fp0[5] != fp1[5]:
+            what[-1] = "cell values of " + ",".join(c for c, a, b in zip(fp0[0], fp0[5], fp1[5]) if a != b)
         viol.append({"clause": "input_modified", "key": {"cls": base["cls"]},
-                     "detail": "the caller's frame differs after construction"})
+                     "detail": f"the caller's frame differs after {cls.__name__}(...): {'; '.join(what)}"})
     if exc is not None:
         return {"behaviour": {"exc": exc}, "violations": viol, "nontrivial": True}
     v, beh, stats = check_output(out, row_inst, row_vals, electric, base["zone"], key0)
@@ -651,7 +656,15 @@ def cases(tier):
             n = nslots(b)
             ends = sorted({0, 1, 2, n - 3, n - 2, n - 1})
             E += _pairs(b, [(ends[a], ends[c]) for a in range(len(ends)) for c in range(a, len(ends))])
-    spaces.append(("E two point deviations on the 4-day frame", E))
+    # one whole-column-empty column together with one point deviation on the 6-hour lattice
+    for zv in [CHI_F] + ([KOL, CHI_B] if thorough else []):
+        b = mkbase(*zv, 4, (6, 17))
+        n = nslots(b)
+        for ek in empty_kinds(b):
+            for kind in point_kinds(b):
+                for q in sorted(set(range(0, n, 6)) | {1, n - 1}):
+                    E.append({"base": b, "devs": [list(k) for k in ek] + [with_pos(kind, q)]})
+    spaces.append(("E two deviations on the 4-day frame", E))
 
     # F. (thorough) three point deviations inside a 3-hour window at every hour of the shortest frame
     if thorough:
